@@ -210,12 +210,13 @@ _TC = ["TransEquiv.emitClose_body_eq", "TransEquiv.local_close_body_eq", "TransE
        "TransEquiv.CheckEncoding_eq", "TransEquiv.classify_u16"]
 _TN = ["TransEquiv.setThreshold_eq", "TransEquiv.initServerOption_pd_eq", "TransEquiv.initClientOption_pd_eq"]
 _TL = ["TransEquiv.initServerOption_limits_pos", "TransEquiv.initClientOption_limits_pos"]
-_TP = ["TransEquiv.Parse_eq", "TransEquiv.afterPayload_eq", "TransEquiv.readControl_body_eq", "TransEquiv.emitMessage_eq"]
+_TP = ["TransEquiv.Parse_eq", "TransEquiv.afterPayload_eq", "TransEquiv.readControl_body_eq", "TransEquiv.emitMessage_eq",
+       "TransEquiv.readMessage_payload_eq", "TransEquiv.readMessage_eq_step"]
 _TRANS = {
-    "C03": (["Gws.Props.TransFrame", "Gws.Props.TransReader", "Gws.Props.TransParse", "Gws.Props.TransFragment", "Gws.Props.TransControl", "Gws.Props.TransEmit"], _TF + _TR + _TP),
-    "C04": (["Gws.Props.TransFrame", "Gws.Props.TransReader", "Gws.Props.TransParse", "Gws.Props.TransFragment", "Gws.Props.TransControl", "Gws.Props.TransEmit", "Gws.Props.TransWindow", "Gws.Props.TransNego"],
+    "C03": (["Gws.Props.TransFrame", "Gws.Props.TransReader", "Gws.Props.TransParse", "Gws.Props.TransFragment", "Gws.Props.TransControl", "Gws.Props.TransEmit", "Gws.Props.TransStep"], _TF + _TR + _TP),
+    "C04": (["Gws.Props.TransFrame", "Gws.Props.TransReader", "Gws.Props.TransParse", "Gws.Props.TransFragment", "Gws.Props.TransControl", "Gws.Props.TransEmit", "Gws.Props.TransStep", "Gws.Props.TransWindow", "Gws.Props.TransNego"],
             _TF + _TR + _TP + ["TransEquiv.binaryCeil_eq", "TransEquiv.Max_eq"] + _TL),
-    "C13": (["Gws.Props.TransFrame", "Gws.Props.TransReader", "Gws.Props.TransParse", "Gws.Props.TransFragment", "Gws.Props.TransControl", "Gws.Props.TransEmit", "Gws.Props.TransNego", "Gws.Props.TransLimited"],
+    "C13": (["Gws.Props.TransFrame", "Gws.Props.TransReader", "Gws.Props.TransParse", "Gws.Props.TransFragment", "Gws.Props.TransControl", "Gws.Props.TransEmit", "Gws.Props.TransStep", "Gws.Props.TransNego", "Gws.Props.TransLimited"],
             _TF + _TR + _TP + _TL + ["TransEquiv.limitedReader_Read_eq", "TransEquiv.copy_step_eq"]),
     "C15": (["Gws.Props.TransQueue"], ["TransEquiv.getJob_eq"]),
     "C19": (["Gws.Props.TransMap"], ["TransEquiv.shardIndex_eq"]),
